@@ -192,3 +192,31 @@ def run_unit(unit, repo, workdir, variables=None, rlimit=None, suffix=''):
             res.status = 'tooling'
             res.tooling.append(f'canary {c} did not fail: the verifier accepted a false statement (vacuity)')
     return res
+
+
+def run_unit_with_vacuity(unit, repo, workdir):
+    """normal run + a second run in which every extracted body starts with `assert(false)`: each of
+    those must FAIL, otherwise the function's precondition (or an assumed axiom) is contradictory
+    and every success of the normal run would be vacuous."""
+    res = run_unit(unit, repo, workdir)
+    if res.status != 'ok' and not res.obligations:
+        return res
+    vac = run_unit(unit, repo, workdir, variables={'__vacuity__': 1}, suffix='__vacuity')
+    res.wall_s += vac.wall_s
+    res.cmd += ' ; (vacuity run) ' + vac.cmd
+    probes = {k: v for k, v in vac.obligations.items() if k.startswith('vac.')}
+    res.vacuity = {}
+    for k, v in probes.items():
+        reachable = v['status'] == 'failed'
+        res.vacuity[k] = reachable
+        res.canaries[k] = reachable
+        if not reachable and vac.status == 'ok':
+            res.status = 'tooling'
+            res.tooling.append(f'vacuity: body of {k[4:]} is unreachable under its precondition/axioms (assert(false) was accepted)')
+    if vac.status != 'ok' and res.status == 'ok' and not probes:
+        res.tooling.append('vacuity run failed: ' + '; '.join(vac.tooling)[:300])
+        res.status = 'tooling'
+    for k in list(res.obligations):
+        if k.startswith('vac.'):
+            del res.obligations[k]
+    return res
